@@ -314,6 +314,61 @@ def run(prop, tier, seed, repo, jobs):
                         inconclusive.append('%s: not reproduced natively (replay %s)' % (ob['name'], rpath))
         except Exception as e:
             inconclusive.append('absorbed change: %s' % e)
+    if prop == 'C17':
+        # what a target holds while it waits for something of unbounded duration (decided over incremental::run and below)
+        try:
+            from . import incr
+            res = incr.check_shared_waits((tier, repo))
+            if res['error']:
+                inconclusive.append('shared waits: %s' % res['error'])
+            else:
+                fns |= set(res['functions'])
+                for ob in res['obligations']:
+                    nq += 1
+                    if ob['verdict'] == 'unsat':
+                        nunsat += 1
+                        samples.append({'case': 'incremental::run over the symbolic file system', 'obligation': ob['name'], 'verdict': 'unsat', 'paths': ob['checked_paths'], 'locks_seen': ob['locks_seen']})
+                        continue
+                    if ob['verdict'] != 'sat':
+                        inconclusive.append('%s: solver %s' % (ob['name'], ob['verdict']))
+                        continue
+                    # native: an unrelated target must still get through while t0 waits for its never-ending command / script
+                    import tempfile, shutil
+                    from ..native import build_native, run_native
+                    binpath, _ = build_native(repo)
+                    d = tempfile.mkdtemp(prefix='zx-c17-', dir=os.environ.get('VERIF_SCRATCH', '/var/tmp'))
+                    try:
+                        open(d + '/zinoma.yml', 'w').write('targets:\n  t0:\n    input:\n      - cmd_stdout: echo zxhang\n    build: echo t0\n  t1:\n    input:\n      - cmd_stdout: echo other\n    build: echo t1\n')
+                        r1 = run_native(binpath, d, ['t0', 't1'], None, timeout=60)
+                        for f_ in os.listdir(d + '/.zinoma') if os.path.isdir(d + '/.zinoma') else []:
+                            if f_.startswith('t1'):
+                                os.remove(d + '/.zinoma/' + f_)       # t1 has to run again in the second invocation
+                        env = {'ZX_HANG_OUTPUT': 'zxhang'} if ob.get('wait') == 'cmd_output' else {'ZX_HANG_SCRIPT': 'echo t0'}
+                        if ob.get('wait') != 'cmd_output':
+                            for f_ in os.listdir(d + '/.zinoma') if os.path.isdir(d + '/.zinoma') else []:
+                                os.remove(d + '/.zinoma/' + f_)
+                        r2 = run_native(binpath, d, ['t0', 't1'], None, timeout=60, extra_env=env)
+                    finally:
+                        shutil.rmtree(d, ignore_errors=True)
+                    last = {}
+                    for l in r2['log']:
+                        if l.startswith('lock_blocked task=') or l.startswith('lock_acquired task='):
+                            last[l.split('task=')[1]] = l.split()[0]
+                    waiting = sorted(t for t, ev_ in last.items() if ev_ == 'lock_blocked')
+                    t1_done = any(l.startswith('proc_reap') for l in r2['log'] if True) and 'INFO t1 - Build success' in r2['stderr']
+                    confirmed = r2['rc'] == 98 and bool(waiting)
+                    replay_n += 1
+                    rpath = os.path.join(common.REPLAYS, 'C17-shared-wait-%d.json' % replay_n)
+                    os.makedirs(common.REPLAYS, exist_ok=True)
+                    json.dump({'kind': 'incr', 'obligation': ob, 'native': {'run1_rc': r1['rc'], 'run2_rc': r2['rc'], 'tasks_left_waiting_for_a_lock': waiting, 't1_completed': t1_done,
+                                                                          'run2_log_tail': r2['log'][-25:]}, 'confirmed': confirmed}, open(rpath, 'w'), indent=1, default=str)
+                    if confirmed:
+                        violations.append(rpath)
+                        samples.append({'case': 'incremental::run', 'obligation': ob['name'], 'verdict': 'sat (reproduced natively: an unrelated target is left waiting for the lock)', 'detail': ob.get('detail')})
+                    else:
+                        inconclusive.append('%s: %s; not reproduced natively (replay %s)' % (ob['name'], ob.get('detail'), rpath))
+        except Exception as e:
+            inconclusive.append('shared waits: %s' % e)
     # exit path of main(): terminate() after engine::run on every path (source-derived, see maintail.py)
     if prop in ('C07', 'C10', 'C11'):
         try:
